@@ -71,6 +71,8 @@ func (r *RateLimitedTokenRequest) Unmarshal(data []byte) bool {
 	r.EncryptedTokenRequest = make([]byte, len(encryptedTokenRequest))
 	copy(r.EncryptedTokenRequest, encryptedTokenRequest)
 
-	s.ReadBytes(&r.Signature, 96)
+	if !s.ReadBytes(&r.Signature, 96) {
+		return false
+	}
 	return s.Empty()
 }
